@@ -1776,5 +1776,7 @@ func famAlias(c *Ctx) {
 			c.Sample(fmt.Sprintf("message %d type=%s class=%s len=%d input=%s", i, e.name, class, len(e.b), aliasTrunc(HexB(e.b))))
 		}
 		e.runAll()
+		// one (uncompared) case line per message, so that the evidence counts what was evaluated
+		c.Case("alias", "msg", []string{e.name, class, HexB(e.b)}, []string{"checked"})
 	}
 }
